@@ -429,9 +429,11 @@ structure ReadOk where
   ctx : Option Ctx       -- `message.tsig_ctx` on return
   deriving Repr
 
-/-- `dns.message.from_wire(wire, keyring, request_mac, tsig_ctx=ctx, multi=multi)` as far as TSIG is concerned -/
-def readV (V : Verifier) (tbl : List AlgEntry) (ttlStrict : Bool) (w : Bytes) (kr : Keyring) (now : Nat)
-    (requestMac : Bytes) (ctx : Option Ctx) (multi : Bool) : Except Err ReadOk :=
+/-- `dns.message.from_wire(wire, keyring, request_mac, tsig_ctx=ctx, multi=multi, ignore_trailing=…)` as far as TSIG
+is concerned.  `ignoreTrailing` lets octets after the last record through; an unsigned envelope of a multi-message
+exchange is digested into the running context as *the message only* (`wire[:parser.current]`, repair 1f3fc58). -/
+def readVI (ignoreTrailing : Bool) (V : Verifier) (tbl : List AlgEntry) (ttlStrict : Bool) (w : Bytes) (kr : Keyring)
+    (now : Nat) (requestMac : Bytes) (ctx : Option Ctx) (multi : Bool) : Except Err ReadOk :=
   if w.length < 12 then .error .shortHeader
   else
     match skipQuestions w (rd16 w 4) 12 with
@@ -447,16 +449,25 @@ def readV (V : Verifier) (tbl : List AlgEntry) (ttlStrict : Bool) (w : Bytes) (k
       match readSection V tbl ttlStrict w kr now requestMac multi 3 (rd16 w 10) (rd16 w 10) st2 with
       | .error e => .error e
       | .ok st3 =>
-        if st3.cur ≠ w.length then .error .trailingJunk
+        if ignoreTrailing = false ∧ st3.cur ≠ w.length then .error .trailingJunk
         else
-          -- `if self.multi and self.message.tsig_ctx and not self.message.had_tsig: tsig_ctx.update(wire)`
+          -- `if self.multi and self.message.tsig_ctx and not self.message.had_tsig: tsig_ctx.update(wire[:current])`
           match multi, st3.ctx, st3.tsig with
-          | true, some c, none => .ok { tsig := none, ctx := some (c.update w) }
+          | true, some c, none => .ok { tsig := none, ctx := some (c.update (w.take st3.cur)) }
           | _, _, _ => .ok { tsig := st3.tsig, ctx := st3.ctx }
+
+/-- the default `ignore_trailing=False` -/
+def readV (V : Verifier) (tbl : List AlgEntry) (ttlStrict : Bool) (w : Bytes) (kr : Keyring) (now : Nat)
+    (requestMac : Bytes) (ctx : Option Ctx) (multi : Bool) : Except Err ReadOk :=
+  readVI false V tbl ttlStrict w kr now requestMac ctx multi
 
 def read (H : Hmac) (tbl : List AlgEntry) (ttlStrict : Bool) (w : Bytes) (kr : Keyring) (now : Nat)
     (requestMac : Bytes) (ctx : Option Ctx) (multi : Bool) : Except Err ReadOk :=
   readV (verifyWith H) tbl ttlStrict w kr now requestMac ctx multi
+
+def readI (ignoreTrailing : Bool) (H : Hmac) (tbl : List AlgEntry) (ttlStrict : Bool) (w : Bytes) (kr : Keyring) (now : Nat)
+    (requestMac : Bytes) (ctx : Option Ctx) (multi : Bool) : Except Err ReadOk :=
+  readVI ignoreTrailing (verifyWith H) tbl ttlStrict w kr now requestMac ctx multi
 
 /-! ## single-bit alterations -/
 
